@@ -564,8 +564,12 @@ def sync_aware_insertion(state: VRPState, rng: Random) -> VRPState:
             state.unassigned.remove(cid)
             state.sync_assignments[cid] = {v for v, _ in best_insertions}
 
+    # Multi-vehicle customers that found no synchronized slot stay unassigned (they must not be lost),
+    # but are kept away from regret_insertion, which would put them on a single route.
+    pending_multi = {c for c in multi if c in state.unassigned}
     state.unassigned = set(single)
     state = regret_insertion(state, rng)
+    state.unassigned |= pending_multi
 
     state.update_arrival_times()
     return state
